@@ -45,6 +45,9 @@ VALID = [
     'def _checksum { splitters: uid return "A" weighted 1, "B" weighted 3 }',
     'def __dict__ { splitters: uid return "A" weighted 1, "B" weighted 1, "C" weighted 1 }',
     'def __call__ { splitters: uid if plan == "pro" { return "A" weighted 1 } else { return "B" weighted 1, "C" weighted 1 } }',
+    # experiments named like the FIELDS other texts (and other evaluators) read: uid, plan
+    'def plan { splitters: uid return "A" weighted 1, "B" weighted 2 }',
+    'def uid { salt: "u" splitters: plan return "A" weighted 2, "B" weighted 1 }',
     # ==-equal group values of different type / sign
     'def num { splitters: uid return 1 weighted 1, 2 weighted 1 }',
     'def num { splitters: uid return 1.0 weighted 1, 2.0 weighted 1 }',
@@ -447,6 +450,9 @@ def more_fixed():
     for x, y in ((a, b), (b, a), (c, d), (d, c)):
         yield {"ops": [["new", x], ["call", 0, 0], ["recompile", 0, y], ["call", 0, 1], ["recompile", 0, x], ["recompile", 0, y], ["call", 0, 2]]}
         yield {"ops": [["new", x], ["new", y], ["call", 1, 0], ["call", 0, 0], ["recompile", 1, x], ["recompile", 0, y]], "probe_only_at_end": True}
+    named_plan, named_uid = _idx("def plan { splitters: uid"), _idx('def uid { salt: "u"')
+    yield {"ops": [["new", both], ["call", 0, 0], ["new", named_plan], ["call", 1, 1], ["recompile", 0, named_uid], ["call", 0, 2], ["recompile", 1, both],
+                   ["recompile", 1, named_plan], ["new", named_uid], ["call", 2, 0]]}
     for how in (0, 1):
         yield {"ops": [["new", a], ["recompile", 0, c], ["copy", 0, how], ["call", 1, 0], ["recompile", 0, a], ["call", 1, 1], ["recompile", 1, b], ["call", 0, 2]]}
     # texts that read different field sets, in both directions
